@@ -1,5 +1,5 @@
 """C01 - applied writes survive crash and restart: the ordering / guard facts its mechanisms name."""
-from . import flushspec, c19
+from . import flushspec, c19, schemaspec
 from ._util import pick
 
 FILTERS = []
@@ -17,4 +17,5 @@ def obligations(ctx):
     out += pick(flushspec.index_save(ctx), [("B-4", "temp-fsync-rename"), ("B-4b", "rename-target")])
     out += pick(flushspec.index_load(ctx), [("B-4c", "stale-temp-removed")])
     out += pick(flushspec.wal_append(ctx), [("B-5", "wal-flush-each-write")])
+    out += pick(schemaspec.define_paths(ctx), [("B-6", "async"), ("B-6b", "sync")])
     return out
